@@ -36,19 +36,21 @@ end Gen
 """
 
 
-def build_env(ctx, need_meta=True):
+def build_env(ctx, need_meta=True, pkgdir=None, model=None):
     """Returns list of problems (strings); on success the modules GenMeta, GenPkg, GenValid,
-    GenHooks, GenEnv are compiled in ctx.work."""
+    GenHooks, GenEnv are compiled in ctx.work.  `pkgdir` / `model`: a package emitted by the current generator for another
+    (evolved) metamodel, with the hand-written runtime files next to it, instead of the committed package and lsp.json."""
     problems = []
+    extra = {"PYTHONPATH": f"{pkgdir}:{common.REPO}:{common.VERIF}/tools"} if pkgdir else None
     if need_meta:
-        mod, err = tables.gen_meta(ctx)
+        mod, err = tables.gen_meta(ctx, [model] if model else None)
         if mod is None:
-            raise Broken("x_meta failed on the committed lsp.json: " + err)
-    pk, err = tables.gen_pkg(ctx)
+            raise Broken("x_meta failed on the metamodel: " + err)
+    pk, err = tables.gen_pkg(ctx, pkgdir=pkgdir)
     if pk is None:
         problems.append("x_pkg failed (package does not import?): " + err[-1200:])
         ctx.obligation("x_pkg", False, "translator", err)
-    p = common.run_py(common.VERIF / "tools/extract/x_valid.py", check=False)
+    p = common.run_py(common.VERIF / "tools/extract/x_valid.py", check=False, extra_env=extra)
     if p.returncode != 0:
         problems.append("x_valid: " + p.stderr.strip()[-800:])
         ctx.obligation("x_valid", False, "translator", p.stderr)
@@ -56,7 +58,7 @@ def build_env(ctx, need_meta=True):
         r = tables.compile_cached(ctx, "GenValid", p.stdout)
         if not r.ok:
             raise Broken("GenValid does not elaborate: " + r.out[-2000:])
-    h = common.run_py(common.VERIF / "tools/extract/x_hooks.py", check=False)
+    h = common.run_py(common.VERIF / "tools/extract/x_hooks.py", check=False, extra_env=extra)
     if h.returncode != 0:
         problems.append("x_hooks: " + h.stderr.strip()[-1200:])
         ctx.obligation("x_hooks", False, "translator", h.stderr)
@@ -321,6 +323,26 @@ theorem {pid}_metamodel_responses (r : Request) (hr : r ∈ Gen.M.requests) (hx 
              f"{pid}_checked", f"{pid}_metamodel_type", f"{pid}_metamodel_constructor", f"{pid}_metamodel_structures", f"{pid}_metamodel_requests",
              f"{pid}_metamodel_notifications", f"{pid}_metamodel_responses"]
     return [[genbad], [genlink], layer + [progs] + llayer + [linkmsgs], [(f"{pid}T1", final)]], names
+
+
+def stack_on(ctx, pid, pkgdir, model):
+    """The whole theorem stack (T1, T2, link theorem, metamodel-level round trip) instantiated on a package the current generator emitted
+    for another metamodel.  Returns (problems, localisation lines); ctx.work must be a directory of its own."""
+    problems = build_env(ctx, pkgdir=pkgdir, model=model)
+    if problems:
+        return problems, []
+    tl, tnames = total_layers(ctx, pid)
+    for layer in tl:
+        for (mn, text) in layer:
+            common.write_module(ctx.work, mn, text)
+    tlayers = [[mn for mn, _ in layer] for layer in tl]
+    res = common.lean_compile(ctx.work, tlayers)
+    hits = common.audit_sources([ctx.work / (mn + ".lean") for l in tlayers for mn in l])
+    if hits:
+        raise Broken(f"forbidden constructs: {hits}")
+    failed = ctx.add_lean_results(res, theorems_expected={tlayers[-1][-1]: tnames})   # axioms audit included
+    loc = localise_total(ctx) if failed else []
+    return [f"{r.name}: {r.out[-600:]}" for r in failed], loc
 
 
 def localise_total(ctx):
